@@ -342,6 +342,30 @@ def decide(ctx, level="proof", search=None):
     return code
 
 
+def flag_rerun(ctx, prop):
+    """the dynamic part of the check again in child interpreters started with other flags: `-O` (asserts and `if __debug__`
+    blocks are stripped) and `-OO`.  A concrete input found there is a violation here, labelled with the flag."""
+    check = os.path.join(VERIF, "check")
+    for flags in (["-O"], ["-OO", "-X", "utf8"]):
+        env = dict(os.environ, VERIF_CHILD_MODE="1", VERIF_SEED=str(ctx.seed), PYAB_REPO=REPO)
+        try:
+            p = subprocess.run(["/venv/bin/python"] + flags + [check, prop, "--tier", "quick"], capture_output=True, text=True, env=env, timeout=1200)
+        except subprocess.TimeoutExpired:
+            ctx.notes.append("flag rerun %s timed out" % flags)
+            continue
+        ctx.count("flag-rerun:" + " ".join(flags))
+        line = next((l for l in p.stdout.splitlines() if l.startswith("CHILD-RESULT ")), None)
+        if line is None:
+            ctx.notes.append("flag rerun %s gave no result: %s" % (flags, (p.stderr or p.stdout)[-300:]))
+            continue
+        res = json.loads(line[len("CHILD-RESULT "):])
+        for v in res["violations"]:
+            ctx.violation("under `python %s`: %s" % (" ".join(flags), v["what"]), dict(v["replay"] if isinstance(v["replay"], dict) else {"replay": v["replay"]},
+                                                                                  interpreter_flags=flags))
+        if res["violations"]:
+            return
+
+
 def main(prop, run, level="proof", lean_module=None, search=None, argv=None):
     import argparse
     ap = argparse.ArgumentParser()
@@ -350,11 +374,16 @@ def main(prop, run, level="proof", lean_module=None, search=None, argv=None):
     args = ap.parse_args(argv)
     seed = int(os.environ.get("VERIF_SEED", "0"))
     ctx = Ctx(prop, args.tier, seed, lean_module)
+    child = os.environ.get("VERIF_CHILD_MODE")      # a re-run of the dynamic part under other interpreter flags (see flag_rerun)
     try:
         import common
-        ctx.translate()
-        ctx.build()
-        ctx.audit()
+        if child:
+            ctx.driver_ok = os.path.exists(DRIVER)
+            ctx.build_ok = True
+        else:
+            ctx.translate()
+            ctx.build()
+            ctx.audit()
         common.load_impl()
         # a change that makes the implementation allocate without bound must end as a MemoryError inside the implementation
         # (a finding), not as the kernel killing the check: cap the address space while the implementation runs
@@ -385,11 +414,28 @@ def main(prop, run, level="proof", lean_module=None, search=None, argv=None):
             where = [f"{os.path.basename(f.filename)}:{f.lineno} {f.name}" for f in tb[-6:]]
             ctx.violation(f"the implementation raised {type(ex).__name__}: {str(ex)[:160]} during a step the check expects to succeed ({where[-1]})",
                           {"exception": repr(ex)[:400], "traceback": where})
-        if ctx.tier == "thorough" and ctx.build_ok:
+        if ctx.tier == "thorough" and not child and not ctx.violations:
+            flag_rerun(ctx, prop)
+        if ctx.tier == "thorough" and ctx.build_ok and not child:
             capped = resource.getrlimit(resource.RLIMIT_AS)
             resource.setrlimit(resource.RLIMIT_AS, (soft0, hard0))
             ctx.leanchecker()
             resource.setrlimit(resource.RLIMIT_AS, capped)
+        if child:
+            # report concrete inputs only; no evidence, no known-findings bookkeeping beyond suppression
+            known = {(k["property"], k["key"]) for k in load_known().get("findings", [])}
+            out = [v for v in ctx.violations if not (v.get("key") and (prop, v["key"]) in known)]
+            print("CHILD-RESULT " + json.dumps({"violations": [{"what": v["what"], "replay": v["replay"]} for v in out[:5]],
+                                                "tie_breaks": ctx.tie_breaks[:3]}, default=str))
+            return 1 if out else 0
+        if not child:
+            _search = search
+
+            def search(c, _s=_search):
+                if _s is not None:
+                    _s(c)
+                if not c.violations:
+                    flag_rerun(c, prop)
         code = decide(ctx, level, search)
         print(f"{prop} tier={ctx.tier} seed={seed} cases={ctx.cov['evaluations']} distinct={len(ctx.cov['distinct'])} "
               f"theorems={len(ctx.theorems)} exit={code} wall={time.time() - ctx.t0:.1f}s")
